@@ -3,7 +3,8 @@ ALG (all shapes): _matmat / to_dense / __matmul__ of Dense, Triangular, ScalarMu
 Adjoint, Permutation, generic operators (incl. the default to_dense on both sides of its 8*rows < cols switch and the 1-D reshape
 round trip), to_dense of Kronecker / KronSum / BlockDiag; TriangularInv, LSTSQSolve, IterativeOperatorWInfo.
 IDX (all sizes): Tridiagonal, Concatenated (both axes), Permutation gather.
-SYM (bounded stand-in, never counted as proved): Kronecker / KronSum / BlockDiag / Kernel / Householder kernels on exact symbolic payloads."""
+TIDX (all factor shapes, multiplicities, column counts; arity enumerated): the reshape / moveaxis kernels of Kronecker / KronSum / BlockDiag over formal dimensions.
+SYM (bounded stand-in, never counted as proved): the same kernels and Kernel on exact symbolic payloads (kept as the fall-back that still decides when TIDX answers unsupported)."""
 import numpy as np
 
 from props._common import run_rules
@@ -34,6 +35,8 @@ def run(chk):
     methods.run_methods(chk, "C01", which=("_matmat", "to_dense", "__matmul__"))
     from props import c01_idx
     c01_idx.run(chk)
+    from props import c01_tidx
+    c01_tidx.run(chk)
     from props import c01_sym
     c01_sym.run(chk)
 
